@@ -19,7 +19,7 @@ impl Check for C20 {
         700
     }
     fn cases(&self, tier: Tier) -> u64 {
-        tier.pick(15_000, 1_000_000)
+        tier.pick(400_000, 10_000_000)
     }
     fn run_case(&self, src: &mut Src, obs: &mut Obs) -> Result<(), Fail> {
         let two_d = src.chance(1, 3);
